@@ -15,7 +15,8 @@ PROP = {
                    "A hang verdict needs: no completed parent operation, unchanged child (state, blocked syscall, context switches, "
                    "cpu time) and unchanged pipe fill levels over 50 further runtime iterations, plus a cause the reference confirms "
                    "(poll(2) readiness / zombie / open write end); a runtime thread stuck inside a blocking syscall is seen by a "
-                   "sentinel thread through /proc/<tid>/syscall. Watchdog firings are inconclusive."),
+                   "sentinel thread through /proc/<tid>/syscall. Watchdog firings are inconclusive."
+                   " Leg wait-keeps-pipes: differential against std::process::Child::wait on the same `sh -c` command line (reference trusted): piped stdout/stderr left inside Child, the child writes 0-60000 bytes 0-400 ms after start, then exits with its code or kills itself; the reported status must equal std's."),
     "technique": "runtime monitoring: reference-model oracle over child stdio/exit status, procfs/poll(2)-based quiescence detector",
     "rule": ("case = driver x child mode (bare | produce stdout+stderr | echo | sink stdin and report length+hash | duplex: all three "
              "pipes at once) x payload per pipe {0, 1, 4 KiB-1, 64 KiB, 64 KiB+1, 1 MiB} x chunk of child / parent reads / parent "
@@ -23,7 +24,8 @@ PROP = {
              "drain, drain then wait, all concurrently in a permuted spawn order, wait_with_output, Command::output, Command::status} "
              "x read API {read, read_managed, read_to_end} x write API {write, write_all} x child closes stdio early / holds before "
              "exit x stdin taken or left inside Child; every case is non-trivial; distinct = distinct (payload classes, chunk "
-             "classes, mode, exit kind, order, driver) strings"),
+             "classes, mode, exit kind, order, driver) strings"
+                   "; wait-keeps-pipes leg: case = (driver, stream written late, size class, late?, way of ending); non-trivial if the child writes; distinct = those tuples with the reference status"),
     "assumptions": [
         "pipe capacity 64 KiB (Linux default); 'wait first' is taken literally only when the child's output fits into the pipes",
         "the child's marker file (pid, CLOCK_MONOTONIC, intended end) is written as its very last act before _exit/kill",
@@ -36,5 +38,10 @@ PROP = {
          "args": {"quick": ["--budget-ms", 30000, "--watchdog-ms", 30000],
                   "thorough": ["--budget-ms", 330000, "--watchdog-ms", 60000]},
          "timeout_s": {"quick": 300, "thorough": 900}},
+        # differential against std::process::Child::wait: piped stdout/stderr left inside `Child`, the child writes
+        # after the parent called wait() and then ends with its own code / signal
+        {"name": "wait-keeps-pipes", "build": "plain", "pkg": "vrt", "cmd": "c20w", "shards": 4,
+         "args": {"quick": ["--iters", 40, "--budget-ms", 40000], "thorough": ["--iters", 1500, "--budget-ms", 300000]},
+         "timeout_s": {"quick": 240, "thorough": 600}},
     ],
 }
